@@ -1,0 +1,272 @@
+//go:build verif
+
+package parser
+
+// Contracts for contract-based verification (/verif, properties C11, C19, C09).
+
+// ---- lexer ----------------------------------------------------------------------------------
+
+// Representation invariant of the lexer: the read offset stays inside the rune buffer, positions
+// never go negative, and the buffer holds code points (never the EOF marker -1).
+//@ type *Lexer invariant l: l != nil && 0 <= l.offset && l.offset <= len(l.data) && l.line >= 0 && l.column >= 0 - 1
+//@ type *Lexer invariant l: forall i int :: 0 <= i && i < len(l.data) ==> l.data[i] >= 0
+//@ type *Lexer invariant l: l.ch == 0 - 1 ==> l.offset >= len(l.data)
+
+// measure used by every scanning loop: runes left, plus one while the current rune is not EOF
+//@ spec func lexMeasure(l *Lexer) int = (len(l.data) - l.offset) + (l.ch == 0 - 1 ? 0 : 1)
+
+//@ spec func lexPosLE(l1 int, c1 int, l2 int, c2 int) bool = l1 < l2 || (l1 == l2 && c1 <= c2)
+//@ spec func posLE(a Position, b Position) bool = a.Line < b.Line || (a.Line == b.Line && a.Column <= b.Column)
+
+//@ func (*Lexer).next
+//@   ensures adv: old(l.offset) < len(l.data) ==> l.offset == old(l.offset) + 1 && l.ch == l.data[old(l.offset)]
+//@   ensures eof: old(l.offset) >= len(l.data) ==> l.offset == old(l.offset) && l.ch == 0 - 1
+//@   ensures data: l.data == old(l.data) && (forall i int :: 0 <= i && i < len(l.data) ==> l.data[i] == old(l.data[i]))
+//@   ensures pos: l.column >= 0 && (l.line == old(l.line) + 1 || (l.line == old(l.line) && l.column == old(l.column) + 1))
+//@   ensures errs: l.Errors == old(l.Errors)
+
+//@ func (*Lexer).peek
+//@   ensures result == (l.offset >= len(l.data) ? 0 - 1 : l.data[l.offset])
+
+//@ func (*Lexer).getPosition
+//@   ensures result.Line == l.line && result.Column == l.column
+
+//@ func (*Lexer).skipWhitespace
+//@   ensures l.data == old(l.data) && l.offset >= old(l.offset) && lexPosLE(old(l.line), old(l.column), l.line, l.column)
+//@   loop 0 decreases len(l.data) - l.offset
+//@   loop 0 invariant l.data == old(l.data) && l.offset >= old(l.offset) && lexPosLE(old(l.line), old(l.column), l.line, l.column)
+
+//@ func (*Lexer).tokenOf
+//@   ensures result.Type == ty && result.Start.Line == l.line && result.Start.Column == l.column && result.End == result.Start
+
+//@ func (*Lexer).errf
+//@   ensures result != nil
+
+//@ func (*Lexer).unexpectedEOF
+//@   ensures result != nil
+
+//@ func (*Lexer).lexIdent
+//@   ensures l.data == old(l.data) && l.offset >= old(l.offset) && lexPosLE(old(l.line), old(l.column), l.line, l.column)
+//@   loop 0 decreases len(l.data) - l.offset
+//@   loop 0 invariant l.data == old(l.data) && l.offset >= old(l.offset) && lexPosLE(old(l.line), old(l.column), l.line, l.column)
+
+//@ func (*Lexer).lexNumber
+//@   ensures l.data == old(l.data) && l.offset >= old(l.offset) && lexPosLE(old(l.line), old(l.column), l.line, l.column)
+//@   ensures order: posLE(result0.Start, result0.End)
+//@   loop 0 decreases len(l.data) - l.offset
+//@   loop 0 invariant l.data == old(l.data) && l.offset >= old(l.offset) && lexPosLE(old(l.line), old(l.column), l.line, l.column)
+//@   loop 0 invariant tt.Start.Line == old(l.line) && tt.Start.Column == old(l.column) && tt.End == tt.Start
+
+//@ func (*Lexer).lexString
+//@   ensures l.data == old(l.data) && l.offset >= old(l.offset) && lexPosLE(old(l.line), old(l.column), l.line, l.column)
+//@   loop 0 decreases lexMeasure(l)
+//@   loop 0 invariant l.data == old(l.data) && l.offset >= old(l.offset) && lexPosLE(old(l.line), old(l.column), l.line, l.column)
+
+//@ func (*Lexer).lexRegex
+//@   ensures l.data == old(l.data) && l.offset >= old(l.offset) && lexPosLE(old(l.line), old(l.column), l.line, l.column)
+//@   loop 0 decreases lexMeasure(l)
+//@   loop 0 invariant l.data == old(l.data) && l.offset >= old(l.offset) && lexPosLE(old(l.line), old(l.column), l.line, l.column)
+
+//@ func (*Lexer).lexEscape
+//@   ensures l.data == old(l.data) && l.offset >= old(l.offset) && lexPosLE(old(l.line), old(l.column), l.line, l.column)
+
+//@ func (*Lexer).lexDescriptionLine
+//@   ensures l.data == old(l.data) && l.offset >= old(l.offset) && lexPosLE(old(l.line), old(l.column), l.line, l.column)
+//@   loop 0 decreases len(l.data) - l.offset
+//@   loop 0 invariant l.data == old(l.data) && l.offset >= old(l.offset) && lexPosLE(old(l.line), old(l.column), l.line, l.column)
+
+//@ func (*Lexer).lexBlockComment
+//@   ensures l.data == old(l.data) && l.offset >= old(l.offset) && lexPosLE(old(l.line), old(l.column), l.line, l.column)
+//@   loop 0 decreases lexMeasure(l)
+//@   loop 0 invariant l.data == old(l.data) && l.offset >= old(l.offset) && lexPosLE(old(l.line), old(l.column), l.line, l.column)
+
+//@ func (*Lexer).lexLineComment
+//@   ensures l.data == old(l.data) && l.offset >= old(l.offset) && lexPosLE(old(l.line), old(l.column), l.line, l.column)
+//@   loop 0 decreases len(l.data) - l.offset
+//@   loop 0 invariant l.data == old(l.data) && l.offset >= old(l.offset) && lexPosLE(old(l.line), old(l.column), l.line, l.column)
+
+//@ func NewLexer
+//@   ensures result != nil && result.offset == 0 && result.line == 0 && result.column == 0 - 1 && result.ch != 0 - 1
+//@   ensures forall i int :: 0 <= i && i < len(result.data) ==> result.data[i] >= 0
+
+// Every token has Start <= End, and a call either reports EOF or consumes at least one rune, so
+// AllTokens terminates on every input.
+//@ func (*Lexer).NextToken
+//@   ensures order: posLE(result0.Start, result0.End)
+//@   ensures progress: (result1 == nil && result0.Type == EOF) || l.offset > old(l.offset)
+//@   ensures data: l.data == old(l.data)
+//@   loop 0 decreases lexMeasure(l)
+//@   loop 0 invariant l.data == old(l.data) && l.offset >= old(l.offset)
+
+//@ func (*Lexer).AllTokens
+//@   loop 0 decreases len(l.data) - l.offset
+//@   loop 0 invariant l.data == old(l.data)
+//@   loop 0 invariant forall i int :: 0 <= i && i < len(tokens) ==> posLE(tokens[i].Start, tokens[i].End)
+//@   ensures order: result1 ==> (forall i int :: 0 <= i && i < len(result0) ==> posLE(result0[i].Start, result0[i].End))
+
+// ---- walker ---------------------------------------------------------------------------------
+
+// tokens are well formed: non-negative positions, Start <= End, and token i ends before token j
+// starts for i < j (all-pairs form, so no induction is needed to compare distant tokens)
+//@ spec func posOK(p Position) bool = p.Line >= 0 && p.Column >= 0
+//@ spec opaque tokWf(ts []Token) bool =
+//@   | (forall i int :: 0 <= i && i < len(ts) ==> posOK(ts[i].Start) && posOK(ts[i].End) && posLE(ts[i].Start, ts[i].End) && ts[i].Type != EOF)
+//@   | && (forall i int, j int :: 0 <= i && i < j && j < len(ts) ==> posLE(ts[i].End, ts[j].Start))
+
+//@ type *Walker invariant ww: ww != nil && 0 <= ww.offset && ww.offset <= len(ww.tokens)
+//@ type *Walker invariant ww: tokWf(ww.tokens)
+
+// position of the last consumed token (zero before the first)
+//@ spec func curEnd(ww *Walker) Position = ww.offset == 0 ? zero(Position) : ww.tokens[ww.offset - 1].End
+
+//@ func (*Walker).currentPos
+//@   ensures result == curEnd(w)
+
+//@ func (*Walker).popToken
+//@   requires len(ww.tokens) > 0
+//@   ensures take: old(ww.offset) < len(ww.tokens) ==> ww.offset == old(ww.offset) + 1 && result == ww.tokens[old(ww.offset)]
+//@   ensures eof: old(ww.offset) >= len(ww.tokens) ==> ww.offset == old(ww.offset) && result.Type == EOF && posLE(result.Start, result.End) && result.End == ww.tokens[len(ww.tokens) - 1].End
+//@   ensures frame: ww.tokens == old(ww.tokens) && ww.failFast == old(ww.failFast) && ww.errors == old(ww.errors)
+//@   ensures order1: posLE(old(curEnd(ww)), result.Start)
+//@   ensures order2: posLE(result.Start, result.End)
+//@   ensures order3: posLE(result.End, curEnd(ww))
+//@   ensures order4: posOK(result.Start) && posOK(result.End)
+
+//@ func (*Walker).peekType
+//@   requires offset >= 0
+//@   ensures result == (ww.offset + offset >= len(ww.tokens) ? EOF : ww.tokens[ww.offset + offset].Type)
+
+//@ func (*Walker).nextType
+//@   ensures result == (ww.offset >= len(ww.tokens) ? EOF : ww.tokens[ww.offset].Type)
+
+//@ func (*Walker).addError
+//@   requires err != nil
+//@   ensures w.tokens == old(w.tokens) && w.offset == old(w.offset) && w.failFast == old(w.failFast)
+
+//@ func (*Walker).popType
+//@   requires len(ww.tokens) > 0
+//@   ensures ww.tokens == old(ww.tokens) && ww.offset >= old(ww.offset)
+//@   ensures old(ww.offset) < len(ww.tokens) ==> ww.offset == old(ww.offset) + 1
+//@   ensures result1 == nil ==> result0.Type == tt && posLE(old(curEnd(ww)), result0.Start) && posLE(result0.Start, result0.End) && posLE(result0.End, curEnd(ww))
+
+//@ func unexpectedToken
+//@   ensures result != nil
+
+//@ func (Token).Clone
+//@   ensures result == tok
+
+//@ func (Token).AsIdent
+//@   ensures result0.Start == tok.Start && result0.End == tok.End && result0.Lit == tok.Lit
+//@   ensures result1 <==> (tok.Type == IDENT || tok.Type == BOOL)
+
+//@ func NewReference
+//@   requires len(idents) > 0
+//@   ensures result.SourceNode.Start == idents[0].SourceNode.Start && result.SourceNode.End == idents[len(idents) - 1].SourceNode.End
+
+//@ func (*Walker).popIdent
+//@   requires len(ww.tokens) > 0
+//@   ensures ww.tokens == old(ww.tokens) && ww.offset >= old(ww.offset)
+//@   ensures old(ww.offset) < len(ww.tokens) ==> ww.offset == old(ww.offset) + 1
+//@   ensures ok: result1 == nil ==> (old(ww.offset) < len(ww.tokens) && posLE(old(curEnd(ww)), result0.SourceNode.Start) && posLE(result0.SourceNode.Start, result0.SourceNode.End) && posLE(result0.SourceNode.End, curEnd(ww)))
+//@   ensures peeked: old(ww.offset) < len(ww.tokens) && (old(ww.tokens[ww.offset].Type) == IDENT || old(ww.tokens[ww.offset].Type) == BOOL) ==> result1 == nil
+
+// popReference is only called after the caller has seen an IDENT or BOOL token, which is what keeps
+// NewReference from being handed an empty list on the error path.
+//@ func (*Walker).popReference
+//@   requires ww.offset < len(ww.tokens) && (ww.tokens[ww.offset].Type == IDENT || ww.tokens[ww.offset].Type == BOOL)
+//@   ensures ww.tokens == old(ww.tokens) && ww.offset > old(ww.offset)
+//@   ensures order: posLE(old(curEnd(ww)), result0.SourceNode.Start) && posLE(result0.SourceNode.Start, result0.SourceNode.End) && posLE(result0.SourceNode.End, curEnd(ww))
+//@   loop 0 decreases len(ww.tokens) - ww.offset
+//@   loop 0 invariant ww.tokens == old(ww.tokens) && ww.offset >= old(ww.offset)
+//@   loop 0 invariant len(ref) == 0 ==> ww.offset == old(ww.offset)
+//@   loop 0 invariant len(ref) > 0 ==> ww.offset > old(ww.offset) && posLE(old(curEnd(ww)), ref[0].SourceNode.Start) && posLE(ref[0].SourceNode.Start, ref[len(ref) - 1].SourceNode.End) && posLE(ref[len(ref) - 1].SourceNode.End, curEnd(ww))
+
+// A node is ordered when it starts at or after the previous token's end, ends at or before the
+// current position and has Start <= End.
+//@ spec func nodeOK(before Position, sn SourceNode, after Position) bool = posLE(before, sn.Start) && posLE(sn.Start, sn.End) && posLE(sn.End, after)
+
+//@ func (*Walker).popValue
+//@   requires len(ww.tokens) > 0
+//@   decreases len(ww.tokens) - ww.offset
+//@   ensures frame: ww.tokens == old(ww.tokens) && ww.offset >= old(ww.offset) && posLE(old(curEnd(ww)), curEnd(ww))
+//@   ensures ok1: result1 == nil ==> ww.offset > old(ww.offset)
+//@   ensures ok2: result1 == nil ==> posLE(old(curEnd(ww)), result0.SourceNode.Start)
+//@   ensures ok3: result1 == nil ==> posLE(result0.SourceNode.Start, result0.SourceNode.End)
+//@   ensures ok4: result1 == nil ==> posLE(result0.SourceNode.End, curEnd(ww))
+//@   loop 0 decreases len(ww.tokens) - ww.offset
+//@   loop 0 invariant ww.tokens == old(ww.tokens) && ww.offset > old(ww.offset) && posLE(old(curEnd(ww)), opener.Start) && posLE(opener.End, curEnd(ww)) && posLE(opener.Start, opener.End)
+
+//@ func (*Walker).popDescription
+//@   requires ww.offset < len(ww.tokens)
+//@   ensures frame1: ww.tokens == old(ww.tokens) && (forall i int :: 0 <= i && i < len(ww.tokens) ==> ww.tokens[i] == old(ww.tokens[i]))
+//@   ensures frame2: ww.offset > old(ww.offset)
+//@   ensures frame3: posLE(old(curEnd(ww)), curEnd(ww))
+//@   ensures ok1: result1 == nil
+//@   ensures ok2: nodeOK(old(curEnd(ww)), result0.SourceNode, curEnd(ww))
+//@   loop 0 decreases len(ww.tokens) - ww.offset
+//@   loop 0 invariant ww.tokens == old(ww.tokens) && ww.offset >= old(ww.offset) && ww.offset < len(ww.tokens) && len(tokens) == len(lines) && fresh(tokens) && fresh(lines)
+//@   loop 0 invariant len(tokens) == 0 ==> ww.offset == old(ww.offset)
+//@   loop 0 invariant same: forall i int :: 0 <= i && i < len(ww.tokens) ==> ww.tokens[i] == old(ww.tokens[i])
+//@   loop 0 invariant a: len(tokens) > 0 ==> ww.offset > old(ww.offset)
+//@   loop 0 invariant b: len(tokens) > 0 ==> posLE(old(curEnd(ww)), tokens[0].Start)
+//@   loop 0 invariant c: len(tokens) > 0 ==> posLE(tokens[0].Start, tokens[len(tokens) - 1].End)
+//@   loop 0 invariant d: len(tokens) > 0 ==> posLE(tokens[len(tokens) - 1].End, curEnd(ww))
+
+//@ func (*Walker).popTag
+//@   requires len(ww.tokens) > 0
+//@   ensures frame: ww.tokens == old(ww.tokens) && ww.offset >= old(ww.offset) && posLE(old(curEnd(ww)), curEnd(ww))
+//@   ensures ok: result1 == nil ==> ww.offset > old(ww.offset) && nodeOK(old(curEnd(ww)), result0.SourceNode, curEnd(ww))
+
+//@ func (*Walker).endStatement
+//@   requires len(ww.tokens) > 0
+//@   ensures frame: ww.tokens == old(ww.tokens) && ww.offset >= old(ww.offset) && posLE(old(curEnd(ww)), curEnd(ww))
+//@   ensures adv: old(ww.offset) < len(ww.tokens) ==> ww.offset > old(ww.offset)
+
+//@ func (*Walker).walkValueAssign
+//@   requires len(ww.tokens) > 0 && posLE(ref.SourceNode.Start, ref.SourceNode.End) && posLE(ref.SourceNode.End, curEnd(ww))
+//@   ensures frame: ww.tokens == old(ww.tokens) && ww.offset >= old(ww.offset) && posLE(old(curEnd(ww)), curEnd(ww))
+//@   ensures ok: result1 == nil ==> ww.offset > old(ww.offset) && result0.SourceNode.Start == ref.SourceNode.Start && posLE(result0.SourceNode.Start, result0.SourceNode.End) && posLE(result0.SourceNode.End, curEnd(ww))
+
+//@ spec opaque fragOrdered(f Fragment) bool =
+//@   | (typeis(f, BlockHeader) ==> posLE(as(BlockHeader, f).SourceNode.Start, as(BlockHeader, f).SourceNode.End))
+//@   | && (typeis(f, Assignment) ==> posLE(as(Assignment, f).SourceNode.Start, as(Assignment, f).SourceNode.End))
+//@   | && (typeis(f, Description) ==> posLE(as(Description, f).SourceNode.Start, as(Description, f).SourceNode.End))
+//@   | && (typeis(f, Comment) ==> posLE(as(Comment, f).SourceNode.Start, as(Comment, f).SourceNode.End))
+//@   | && (typeis(f, CloseBlock) ==> posLE(as(CloseBlock, f).SourceNode.Start, as(CloseBlock, f).SourceNode.End))
+
+// Every statement fragment has Start <= End (C11); FmtDiffs slices source lines by these (C19).
+//@ func (*Walker).walkStatement
+//@   requires ww.offset < len(ww.tokens) && (ww.tokens[ww.offset].Type == IDENT || ww.tokens[ww.offset].Type == BOOL)
+//@   ensures frame: ww.tokens == old(ww.tokens) && ww.offset > old(ww.offset)
+//@   ensures ordered: result1 == nil ==> result0 != nil && fragOrdered(result0)
+//@   loop 0 decreases len(ww.tokens) - ww.offset
+//@   loop 0 invariant ww.tokens == old(ww.tokens) && ww.offset > old(ww.offset) && posLE(hdr.SourceNode.Start, curEnd(ww)) && hdr.SourceNode.Start == start
+//@   loop 1 decreases len(ww.tokens) - ww.offset
+//@   loop 1 invariant ww.tokens == old(ww.tokens) && ww.offset > old(ww.offset) && posLE(hdr.SourceNode.Start, curEnd(ww)) && hdr.SourceNode.Start == start
+
+//@ func (*Walker).nextFragment
+//@   requires ww.offset < len(ww.tokens)
+//@   ensures frame: ww.tokens == old(ww.tokens) && ww.offset > old(ww.offset)
+//@   ensures ordered: result1 == nil && result0 != nil ==> fragOrdered(result0)
+//@   ensures onerror: result1 != nil ==> result0 == nil
+
+//@ func (*Walker).recoverError
+//@   requires err != nil && len(ww.tokens) > 0
+//@   ensures frame: ww.tokens == old(ww.tokens) && ww.offset >= old(ww.offset)
+//@   loop 0 decreases len(ww.tokens) - ww.offset
+//@   loop 0 invariant ww.tokens == old(ww.tokens) && ww.offset >= old(ww.offset) && len(ww.tokens) > 0
+
+//@ func (*Walker).walkFragments
+//@   ensures ordered: forall i int :: 0 <= i && i < len(result0) ==> result0[i] != nil && fragOrdered(result0[i])
+//@   loop 0 decreases len(ww.tokens) - ww.offset
+//@   loop 0 invariant ww.tokens == old(ww.tokens)
+//@   loop 0 invariant forall i int :: 0 <= i && i < len(fragments) ==> fragments[i] != nil && fragOrdered(fragments[i])
+
+//@ func (TokenType).IsLiteral
+//@   ensures result == (literal_beg < tok && tok < literal_end)
+//@ func (TokenType).IsOperator
+//@   ensures result == (operator_beg < tok && tok < operator_end)
+//@ func (TokenType).IsKeyword
+//@   ensures result == (keyword_beg < tok && tok < keyword_end)
+//@ func (TokenType).CanStartTag
+//@   ensures result == (tok == IDENT || tok == STRING || tok == REGEX || tok == BANG || tok == QUESTION || tok == BOOL)
